@@ -85,7 +85,8 @@ template <class Mesh> void HistRun<Mesh>::op_fork(const Op &q) {
     auto clone_model_into = [&](R &dst) {
         dst.m = src.m;
         dst.vpos = src.vpos;
-        dst.lat_v = src.lat_v; dst.lat_c = src.lat_c;
+        dst.lat_v = src.lat_v; dst.lat_c = src.lat_c; dst.io = src.io;
+        dst.pos_persistent = src.pos_persistent;
         // only persistent properties travel
         for (auto &mp : src.props) if (mp.attached && mp.persistent) {
             MProp c = mp;
@@ -101,6 +102,27 @@ template <class Mesh> void HistRun<Mesh>::op_fork(const Op &q) {
         reps.push_back(std::move(n));
         st.add("probe_fork_copy");
         if (src.m.needs_gc()) st.add("probe_fork_with_pending_deletions");
+        return;
+    }
+    if (k == "FORK_CROSS") {
+        // assignment between polyhedral, tetrahedral and hexahedral mesh types: there and back again through the other kernel
+        if (reps.size() >= 3) return;
+        auto content_type = [&]() { const Model &m = src.m; if (m.n_logical(BC) == 0) return 0; bool tet = true, hex = true;
+            for (int u : m.live_uids(BF)) { if (m.F[u].size() != 3) tet = false; if (m.F[u].size() != 4) hex = false; }
+            for (int u : m.live_uids(BC)) { if (m.C[u].size() != 4) tet = false; if (m.C[u].size() != 6) hex = false; }
+            return tet ? 1 : hex ? 2 : 0; };
+        std::unique_ptr<Mesh> back(new Mesh());
+        auto via = [&](auto &tmp, const char *what) {
+            tmp = *src.mesh;
+            if (!src.m.needs_gc()) { std::string d = compare_loaded(tmp, src, false, false); if (!d.empty()) ctx.fail({"C13"}, "cross-kernel-copy-differs", std::string(what) + ": " + d); }
+            *back = tmp;
+        };
+        if (KID == 0) { int t = content_type(); if (t == 1 && (q.a[2] & 1)) { TetMesh tmp; via(tmp, "poly->tet->poly"); } else if (t == 2 && (q.a[2] & 1)) { HexMesh tmp; via(tmp, "poly->hex->poly"); } else { PolyMesh tmp; via(tmp, "poly->poly->poly"); } }
+        else { PolyMesh tmp; via(tmp, KID == 1 ? "tet->poly->tet" : "hex->poly->hex"); }
+        std::unique_ptr<R> n(new R(back.release()));
+        clone_model_into(*n);
+        reps.push_back(std::move(n));
+        st.add("probe_fork_cross_kernel");
         return;
     }
     if (k == "FORK_SELF") { Mesh &m = *src.mesh; Mesh &alias = m; m = alias; st.add("probe_self_assign"); return; }
@@ -237,6 +259,26 @@ template <class Mesh> void HistRun<Mesh>::op_collapse(R &r, const Op &q) {
             if (t.size() != 4) ctx.fail(ow, "shape", "cell without four distinct vertices after collapse");
             got.push_back(canon_even(t));
         }
+        // surviving cells keep their property values: the uid tag (an ordinary cell property) of each resulting cell must name
+        // the former cell it stands for, and every client-held cell / vertex property must still hold that entity's value
+        {
+            std::vector<std::string> owp = {"C15", "C03"};
+            std::map<int, std::vector<int>> old_tuple;   // old cell uid -> substituted canonical tuple
+            { size_t k = 0; for (int c : m.live_uids(BC)) { std::vector<int> t = cells[k++]; bool ha = std::find(t.begin(), t.end(), a) != t.end(), hb = std::find(t.begin(), t.end(), b) != t.end(); if (ha && hb) continue; for (int &x : t) if (x == a) x = b; old_tuple[c] = canon_even(t); } }
+            size_t gi = 0;
+            for (auto ch : M.cells()) {
+                int old = r.tc[ch];
+                auto it = old_tuple.find(old);
+                if (it == old_tuple.end() || it->second != got[gi]) ctx.fail(owp, "collapse-cell-property", "cell " + std::to_string(ch.idx()) + " carries uid tag " + std::to_string(old) + " which is not the former cell it replaces");
+                for (int i = 0; i < NHELD; ++i) if (held[i].h && held[i].rep == cur) { const MProp &mp = r.props[held[i].mid]; if (mp.attached && mp.kind == KC && !held[i].h->equals((size_t)ch.idx(), mp.get(old))) ctx.fail(owp, "collapse-cell-property", "client cell property lost the value of the surviving cell"); }
+                ++gi;
+            }
+            for (auto vh : M.vertices()) {
+                int u = r.tv[vh];
+                for (int i = 0; i < NHELD; ++i) if (held[i].h && held[i].rep == cur) { const MProp &mp = r.props[held[i].mid]; if (mp.attached && mp.kind == KV && u >= 0 && u < m.n_uids(BV) && !held[i].h->equals((size_t)vh.idx(), mp.get(u))) ctx.fail(owp, "collapse-vertex-property", "client vertex property lost the value of a surviving vertex"); }
+            }
+            st.add("probe_collapse_property_transfer_checked");
+        }
         std::sort(got.begin(), got.end()); std::sort(want.begin(), want.end());
         if (got != want) {
             std::string d = "collapse " + std::to_string(a) + "->" + std::to_string(b) + ": got " + std::to_string(got.size()) + " cells, expected " + std::to_string(want.size());
@@ -279,7 +321,7 @@ template <class Mesh> void HistRun<Mesh>::verify_registry(R &r, int ri, bool dee
     for (int k = 0; k < 7; ++k) {
         long want = alive_k[k] + tags_k[k] + (k == KV ? 1 : 0);   // + uid tag + position property
         if ((long)n_props_of(*r.mesh, k) != want) ctx.fail(OW, "counts", std::string("n_props<") + pkind_name(k) + "> = " + std::to_string(n_props_of(*r.mesh, k)) + " expected " + std::to_string(want));
-        if ((long)n_persistent_props_of(*r.mesh, k) != pers_k[k]) ctx.fail(OW, "counts", std::string("n_persistent_props<") + pkind_name(k) + "> = " + std::to_string(n_persistent_props_of(*r.mesh, k)) + " expected " + std::to_string(pers_k[k]));
+        if ((long)n_persistent_props_of(*r.mesh, k) != pers_k[k] + (k == KV && r.pos_persistent ? 1 : 0)) ctx.fail(OW, "counts", std::string("n_persistent_props<") + pkind_name(k) + "> = " + std::to_string(n_persistent_props_of(*r.mesh, k)) + " expected " + std::to_string(pers_k[k]));
     }
     // persistent listing: shared, named, unique
     auto pl = list_persistent(*r.mesh);
